@@ -18,6 +18,11 @@ CHECKS = {
             "Every string of the path grammar (1-2/1-3 segments from {a,d,..,.,'',unicode,300 chars} x trailing slash x absolute-outside / absolute-inside anchors x backslash joins, plus deeper escapes) is supplied as each of 14 path-taking arguments through the real ToolRunner with the production checkpoint hook and through POST /tasks; the tree outside the root must stay byte-identical, a canary outside must never surface in outputs or under .rip, paths that are absolute or contain '..' must be refused and leave no effect (checkpoint store included).",
             "Lexical resolvers are assumed (no symlinks in the workspace); absolute test paths are anchored inside the scratch area; checkpoint creation may accept absolute paths inside the root; log artifacts of a refused task are bookkeeping, not side effects; PTY tasks excluded (no PTY in the sandbox).",
             "DESIGN.md §3 C13"),
+    "C14": ("H-histories", "exploration",
+            "bounded exhaustive enumeration of checkpoint/edit/rewind histories on the real ToolRunner + production checkpoint hook, cwd = root and != root (subprocesses), reference checkpoint map",
+            "Every history of <=5 (quick) / <=6 (thorough) ops ending in a rewind over {manual checkpoints of path subsets given relative or absolute, write tool, apply_patch add/update/move/delete, external delete, directory at a file path, file at a directory path, rewind to first/second/last checkpoint} is executed on real directories; a successful rewind must restore exactly the observed pre-checkpoint bytes (absent files absent), touch nothing uncovered, a failing rewind must change nothing, and every write/apply_patch must be preceded by an automatic checkpoint covering everything it changed.",
+            "Three paths, four contents, bounded depth; reference record is the harness's own observation of the directory before each checkpoint; no symlinks or permission faults.",
+            "DESIGN.md §3 C14"),
     "C15": ("H-inputs", "exploration",
             "bounded exhaustive enumeration of SSE byte streams x all chunk partitions through the real decode pipe; differential (single chunk vs partition) + reference SSE parser",
             "Every stream of <=2/3 blocks from a 14-block alphabet x {LF,CRLF} x {complete, missing final blank line, missing final EOL} is delivered through the real push_bytes -> SseDecoder -> EventFrameMapper -> sink pipe in all 2^(n-1) partitions (<=14/17 bytes) or all 1-splits, 2-splits and byte-at-a-time; frames, seqs, terminal flag and collected tool calls must equal the single-chunk delivery, which must equal a reference SSE parser on the lossily decoded body.",
@@ -71,6 +76,8 @@ def main():
         "engines": [
             {"name": "H-bfs", "path": "/verif/harness/src", "serves_properties": ["C20"],
              "kind_free_text": "bounded exhaustive sequence/input enumeration over the real code (BFS with state keys where futures coincide)"},
+            {"name": "H-histories", "path": "/verif/harness/src", "serves_properties": sorted(k for k, v in CHECKS.items() if v[0] == "H-histories"),
+             "kind_free_text": "bounded exhaustive enumeration of operation histories over the real API, re-executed from scratch per history, with reference models / differential oracles"},
             {"name": "H-inputs", "path": "/verif/harness/src", "serves_properties": sorted(k for k, v in CHECKS.items() if v[0] == "H-inputs"),
              "kind_free_text": "bounded exhaustive enumeration of an input grammar against a reference model / differential oracle on the real code"},
         ],
